@@ -104,19 +104,30 @@ def build(ctx):
     T = list(templates(nm))
     if not ctx.thorough:
         T = [t for t in T if t not in ("S1", "D.H0", "R.H1")]
-    L = 2 if not ctx.thorough else 3
     fns = ["Program.__eq__", "Program.equivalence", "program_utils.program_equivalence", "program_utils.list_to_DAG", "RegRef.__eq__"]
-    seqs = [list(s) for l in range(1, L + 1) for s in itertools.product(T, repeat=l)]
-    pairs = []
-    for s1 in seqs:
-        for s2 in seqs:
-            if len(s1) > len(s2):
-                continue
-            # pairs that can be confused: same op families in the same order, or one a prefix of the other
-            fam1 = [x.split(".")[0].rstrip("0123456789").replace("sym", "").replace("50_", "") for x in s1]
-            fam2 = [x.split(".")[0].rstrip("0123456789").replace("sym", "").replace("50_", "") for x in s2]
-            if fam1 == fam2[:len(fam1)] or sorted(fam1) == sorted(fam2):
-                pairs.append((s1, s2))
+
+    def fam(seq):
+        return [x.split(".")[0].rstrip("0123456789").replace("sym", "").replace("50_", "") for x in seq]
+
+    def confusable(seqs_):
+        out = []
+        for s1 in seqs_:
+            for s2 in seqs_:
+                if len(s1) > len(s2):
+                    continue
+                # pairs that can be confused: same op families in the same order, or one a prefix of the other
+                f1, f2 = fam(s1), fam(s2)
+                if f1 == f2[:len(f1)] or sorted(f1) == sorted(f2):
+                    out.append((s1, s2))
+        return out
+    seqs = [list(s) for l in range(1, 3) for s in itertools.product(T, repeat=l)]
+    pairs = confusable(seqs)
+    if ctx.thorough:
+        # length 3 on a reduced alphabet (the full alphabet would give 2.3 million pairs)
+        T3 = [t for t in T if t in ("R0", "R1", "BS01", "BS10", "S0")]
+        seqs3 = [list(s) for l in range(1, 4) for s in itertools.product(T3, repeat=l)]
+        pairs += [p for p in confusable(seqs3) if len(p[1]) == 3]
+        seqs = seqs + [s for s in seqs3 if len(s) == 3]
     if not ctx.thorough:
         pairs = [p for p in pairs if len(p[1]) <= 2 and (len(p[0]) == 1 or p[0][0] in ("R0", "BS01"))]
     for s1, s2 in pairs:
